@@ -3,6 +3,7 @@
 #[path = "/verif/harness/src/rng.rs"] mod rng;
 mod fams {
     #[path = "/verif/harness/src/fam_sql.rs"] pub mod fam_sql;
+    #[path = "/verif/harness/src/fam_c32.rs"] pub mod fam_c32;
     #[path = "/verif/harness/src/fam_c09.rs"] pub mod fam_c09;
     #[path = "/verif/harness/src/fam_c45.rs"] pub mod fam_c45;
 }
